@@ -32,18 +32,30 @@ public:
 
     void generate(Rng &r, Plan &p, bool thorough) { mtGenerate(r, p, thorough, false); }
 
-    static bool soloMarks(const Plan &p, std::vector<uint64_t> &marks, std::string &err)
+    // Runs the plan in a freshly exec'ed process (mode "--solo": only the observed task's calls; "--inter": all tasks'
+    // calls in schedule order, on one thread or on baton-serialised threads) and returns the observed task's marks.
+    // A fresh process per execution makes every run a function of its plan alone: process-wide state left behind by
+    // earlier runs of a worker (which is exactly what this property is about) cannot leak from one run into the next.
+    static bool childMarks(const Plan &p, const char *mode, std::vector<uint64_t> &marks, std::map<std::string, uint64_t> &counters, double &simSeconds, std::string &err)
     {
-        char path[256]; snprintf(path, sizeof path, "%s/C14.solo.%d.plan", tmpDir().c_str(), (int)getpid());
+        char path[256]; snprintf(path, sizeof path, "%s/C14.%s.%d.plan", tmpDir().c_str(), mode + 2, (int)getpid());
+        char epath[256]; snprintf(epath, sizeof epath, "%s/C14.%s.%d.err", tmpDir().c_str(), mode + 2, (int)getpid());
         writeFile(path, planToString(p, NULL));
         char self[4096]; ssize_t n = readlink("/proc/self/exe", self, sizeof self - 1); self[n > 0 ? n : 0] = 0;
-        std::string cmd = std::string(self) + " --solo " + path + " 2>/dev/null";
+        std::string cmd = std::string(self) + " " + mode + " " + path + " 2>" + epath;
         FILE *pp = popen(cmd.c_str(), "r"); if(!pp) { err = "popen failed"; return false; }
-        char line[256]; bool ok = false;
-        while(fgets(line, sizeof line, pp)) { if(line[0] == 'M') marks.push_back(strtoull(line + 2, NULL, 10)); else if(line[0] == 'E') ok = true; }
+        char line[512]; bool ok = false;
+        while(fgets(line, sizeof line, pp))
+        {
+            if(line[0] == 'M') marks.push_back(strtoull(line + 2, NULL, 10));
+            else if(line[0] == 'S') simSeconds += atof(line + 2);
+            else if(line[0] == 'C') { char nm[256]; unsigned long long v = 0; if(sscanf(line + 2, "%255s %llu", nm, &v) == 2) counters[nm] += v; }
+            else if(line[0] == 'E') ok = true;
+        }
         int rc = pclose(pp); unlink(path);
-        if(!ok) { err = "solo process ended with status " + std::to_string(rc); return false; }
-        return true;
+        if(!ok) { std::string e; readFile(epath, e); size_t q = e.find("ERROR: "); if(q != std::string::npos) e = e.substr(q, 300); else if(e.size() > 300) e = e.substr(0, 300); for(size_t i = 0; i < e.size(); ++i) if(e[i] == '\n') e[i] = ' '; err = "process ended with status " + std::to_string(rc) + " " + e; }
+        unlink(epath);
+        return ok;
     }
 
     void execute(const Plan &p, Run &run)
@@ -51,20 +63,18 @@ public:
         SimFsScope fs; g_fs.reset();
         opn2_set_vgm_out_path("kek.vgm");
         const int nTasks = (int)p.get("tasks", 2);
-        std::vector<uint64_t> ref; std::string err;
-        if(!soloMarks(p, ref, err)) { run.fail("solo-run-failed", "solo", "the observed history alone, in a fresh process: " + err); return; }
-        std::vector<TaskCtx> tasks((size_t)nTasks);
-        for(int t = 0; t < nTasks; ++t) { tasks[(size_t)t].id = t; mtSetupWorld(tasks[(size_t)t], p); }
-        tapInstall(true);
+        std::vector<uint64_t> ref, got; std::string err; std::map<std::string, uint64_t> cnt, cntSolo; double sim = 0, simSolo = 0;
+        if(!childMarks(p, "--solo", ref, cntSolo, simSolo, err)) { run.fail("solo-run-failed", "solo", "the observed history alone, in a fresh process: " + err); return; }
         bool threaded = p.get("threaded", 0) != 0;
-        if(threaded) { runThreaded(p, tasks); run.count("threaded_run"); } else { runInterleaved(p, tasks, -1); run.count("single_thread_interleaving"); }
-        tapInstall(false);
+        if(!childMarks(p, "--inter", got, cnt, sim, err)) { run.fail("interleaved-run-died", std::string("core") + std::to_string(p.get("emu0", 0)) + "+" + std::to_string(p.get("emu1", 0)), "all tasks in schedule order, in a fresh process: " + err); return; }
+        run.count(threaded ? "threaded_run" : "single_thread_interleaving");
+        for(std::map<std::string, uint64_t>::iterator c = cnt.begin(); c != cnt.end(); ++c) run.counters[c->first] += c->second;
+        run.simSeconds += sim;
         // probes
         run.count(("observer." + std::to_string(p.get("emu0", 0))).c_str()); if(p.get("emu0", 0) == p.get("emu1", 1)) run.count("same_core_both_sides");
         int lastObsRender = -1; for(size_t i = 0; i < p.ops.size(); ++i) { const Op &o = p.ops[i]; if(o.task == 0 && (o.kind == A_GENERATE || o.kind == A_PLAY)) { if(lastObsRender >= 0) { for(size_t k = (size_t)lastObsRender + 1; k < i; ++k) if(p.ops[k].task != 0 && (p.ops[k].kind == A_INIT || p.ops[k].kind == A_SWITCH_EMULATOR || p.ops[k].kind == A_RESET || p.ops[k].kind == A_CLOSE)) { run.count("interferer_heavy_call_between_renders"); break; } } lastObsRender = (int)i; } }
         Hasher pre; for(size_t i = 0; i < p.ops.size() && i < 32; ++i) pre.add((uint64_t)p.ops[i].task); run.state(pre.h);
         // compare the observed task call by call
-        const std::vector<uint64_t> &got = tasks[0].marks;
         size_t n = std::min(got.size(), ref.size()); size_t d = 0; while(d < n && got[d] == ref[d]) ++d;
         if(d < n || got.size() != ref.size())
         {
@@ -77,25 +87,31 @@ public:
         }
         Hasher st; st.add((uint64_t)p.get("emu0", 0)); st.add((uint64_t)p.get("emu1", 0)); st.add(threaded); run.state(st.h);
         for(size_t k = 0; k < got.size(); ++k) run.log.add(got[k]);
-        double sim = 0; for(int t = 0; t < nTasks; ++t) sim += tasks[(size_t)t].run.simSeconds; run.simSeconds += sim;
-        for(int t = 0; t < nTasks; ++t) { tasks[(size_t)t].world.closeAll(); for(std::map<std::string, uint64_t>::iterator c = tasks[(size_t)t].run.counters.begin(); c != tasks[(size_t)t].run.counters.end(); ++c) run.counters[c->first] += c->second; }
     }
 };
 
 int main(int argc, char **argv)
 {
-    if(argc > 2 && std::string(argv[1]) == "--solo")
+    if(argc > 2 && (std::string(argv[1]) == "--solo" || std::string(argv[1]) == "--inter"))
     {
-        // reference: the observed task alone, in this freshly exec'ed process
+        // one execution of a plan in this freshly exec'ed process: "--solo" = the observed task alone (reference),
+        // "--inter" = every task in schedule order
+        const bool solo = std::string(argv[1]) == "--solo";
         std::string text; Plan plan; if(!readFile(argv[2], text) || !planFromString(text, plan)) return 2;
         SimFsScope fs; g_fs.reset(); opn2_set_vgm_out_path("kek.vgm");
         std::vector<TaskCtx> tasks((size_t)plan.get("tasks", 2));
         for(size_t t = 0; t < tasks.size(); ++t) { tasks[t].id = (int)t; mtSetupWorld(tasks[t], plan); }
         tapInstall(true);
-        runInterleaved(plan, tasks, 0);
+        if(solo) runInterleaved(plan, tasks, 0);
+        else if(plan.get("threaded", 0) != 0) runThreaded(plan, tasks);
+        else runInterleaved(plan, tasks, -1);
         for(size_t k = 0; k < tasks[0].marks.size(); ++k) __real_printf("M %llu\n", (unsigned long long)tasks[0].marks[k]);
+        double sim = 0; std::map<std::string, uint64_t> cnt;
+        for(size_t t = 0; t < tasks.size(); ++t) { sim += tasks[t].run.simSeconds; for(std::map<std::string, uint64_t>::iterator c = tasks[t].run.counters.begin(); c != tasks[t].run.counters.end(); ++c) cnt[c->first] += c->second; }
+        __real_printf("S %.6f\n", sim);
+        for(std::map<std::string, uint64_t>::iterator c = cnt.begin(); c != cnt.end(); ++c) __real_printf("C %s %llu\n", c->first.c_str(), (unsigned long long)c->second);
         __real_printf("E\n"); fflush(stdout);
-        tasks[0].world.closeAll();
+        for(size_t t = 0; t < tasks.size(); ++t) tasks[t].world.closeAll();
         return 0;
     }
     C14 c;
